@@ -1,6 +1,6 @@
 SPECIFICATION SpecC
 CONSTANTS Names <- NamesQ Depth = 2 Vals <- ValsQ Sep = 46 Design = "items" Base <- NoBase MaxSlots = 3
-  Strs <- NoStrs Seps <- NoStrs Asgs <- NoStrs Elems <- NoStrs
+  Ends <- Ends0 Strs <- NoStrs Seps <- NoStrs Asgs <- NoStrs Elems <- NoStrs
 CONSTRAINT Bound
 VIEW ViewC
 INVARIANTS Refines PrefixClosed
